@@ -152,18 +152,24 @@ func Load(repo string, patterns []string, tests bool, overlay map[string][]byte)
 		fmt.Fprintf(os.Stderr, "timing: load+typecheck %.1fs, ssa build %.1fs\n", t1.Sub(t0).Seconds(), time.Since(t1).Seconds())
 	}
 	w.Prog = prog
+	w.indexFuncs()
+	if w.NFuncs == 0 {
+		return nil, fmt.Errorf("no SSA functions built")
+	}
+	return w, nil
+}
+
+// indexFuncs (re)builds the name → function index of the program.
+func (w *World) indexFuncs() {
 	w.funcs = map[string]*ssa.Function{}
-	for fn := range ssautil.AllFunctions(prog) {
+	w.NFuncs = 0
+	for fn := range ssautil.AllFunctions(w.Prog) {
 		w.NFuncs++
 		if fn.Pkg == nil && fn.Parent() == nil && fn.Synthetic != "" {
 			continue
 		}
 		w.funcs[shortName(fn.String())] = fn
 	}
-	if w.NFuncs == 0 {
-		return nil, fmt.Errorf("no SSA functions built")
-	}
-	return w, nil
 }
 
 func shortName(s string) string {
